@@ -317,8 +317,8 @@ fn families3(out: &mut Out, states: &[RxState], thorough: bool) {
             for b1 in 0..=255u8 {
                 for b2 in 0..=255u8 {
                     let bytes = [b0, b1, b2];
-                    let r = std::panic::catch_unwind(std::panic::AssertUnwindSafe(|| rx.d.decap(&bytes)));
-                    let p = std::panic::catch_unwind(std::panic::AssertUnwindSafe(|| rx.d.get_label_or_frag_id(&bytes)));
+                    let r = cu("decap", std::panic::AssertUnwindSafe(|| rx.d.decap(&bytes)));
+                    let p = cu("peek", std::panic::AssertUnwindSafe(|| rx.d.get_label_or_frag_id(&bytes)));
                     rx.d.memory.log.borrow_mut().clear();
                     let obs = match &r {
                         Err(_) => "panic".to_string(),
